@@ -76,6 +76,7 @@ class Outcome:
         self.units = []
         self.unverified_scope = []
         self.extra = {}
+        self.undecided_units = set()
 
 
 def scan_trusted(text):
@@ -104,6 +105,7 @@ def run_verus_units(pid, unit_names, out, tier, variants=None):
             text = U.render()
         except ExtractError as e:
             out.undecided.append(f'unit {uname}: extraction failed: {e}')
+            out.undecided_units.add(uname)
             continue
         hits = scan_trusted(text)
         listed = trusted_mod.TRUSTED
@@ -119,6 +121,7 @@ def run_verus_units(pid, unit_names, out, tier, variants=None):
         out.solver[uname] = {'backend': 'verus 0.2026.09.13 / z3 (bundled)', 'smt_ms': res.smt_ms, 'total_ms': res.total_ms}
         if not res.ok:
             out.undecided.append(f'unit {uname}: {res.undecided}')
+            out.undecided_units.add(uname)
             continue
         tagged = [pc for pc in U.pieces if pid in (pc.contract.get('props') or [])]
         if not tagged:
